@@ -232,3 +232,40 @@ def c03_reuse(e):
         if not check_stream(segs, system, no_color, True, False):
             return False
     return True
+
+
+# --- a style combined from styles that were rendered before (their SGR strings are cached on the objects) ------------------
+_W_ATTR = [None, ("bold", True), ("bold", False), ("italic", True), ("dim", False)]
+_W_COL = [None, Color.parse("red"), Color.from_rgb(64, 80, 96)]
+
+
+def _w_style(e, p):
+    kw = {}
+    a = _W_ATTR[int(e.mk(p + "_attr", 0, len(_W_ATTR) - 1))]
+    if a:
+        kw[a[0]] = a[1]
+    fg = _W_COL[int(e.mk(p + "_fg", 0, 2))]
+    bg = _W_COL[int(e.mk(p + "_bg", 0, 2))]
+    link = "http://x/" + p if e.mkbool(p + "_link") else None
+    return Style(color=fg, bgcolor=bg, link=link, **kw)
+
+
+@symx("C03-combined-after-render", timeout=1500, kind="P", functions=F_R + ["rich/style.py:Style.__add__", "rich/style.py:Style.combine",
+                                                                           "rich/style.py:Style.chain"],
+      bounds="styles a and b, each: one attribute from {none, bold on/off, italic on, dim off} x fg and bg from {unset, standard, "
+             "truecolor} x link on/off; a (or a and b) is first written to a console so that its SGR string is cached on the object; "
+             "then a+b, Style.combine([a,b]) and Style.chain(a,b) are written on a console of the same colour system (truecolor or "
+             "standard): the decoded stream shows exactly the combined style's attributes, colours and link - nothing cached on an "
+             "operand leaks into, or is missing from, the combination (all solver-enumerated, native)",
+      outside="see C03-same-style-object-reused for consoles of different colour systems")
+def c03_combined_warm(e):
+    a, b = _w_style(e, "a"), _w_style(e, "b")
+    system = ["truecolor", "standard"][int(e.mk("system", 0, 1))]
+    both = bool(e.mkbool("render_b_too"))
+    if not check_stream([Segment("w", a)] + ([Segment("v", b)] if both else []), system, False, True, False):
+        return False
+    for c in (a + b, Style.combine([a, b]), Style.chain(a, b)):
+        if not check_stream([Segment("x", c), Segment("y")], system, False, True, False):
+            return False
+    # the operands still render as themselves afterwards
+    return check_stream([Segment("w", a), Segment("v", b)], system, False, True, False)
